@@ -137,3 +137,38 @@ pub fn ok_month(m: u8) -> Result<u8, ()> {
     }
     Ok(m)
 }
+
+/// FORALL (shrinking slice): every index is validated by a `while let [x, rest @ ..]` loop, then used.
+pub fn ok_shrink(idx: &[usize], table: &[u8; 16]) -> u32 {
+    let mut rest = idx;
+    while let [x, tail @ ..] = rest {
+        if *x >= 16 {
+            return 0;
+        }
+        rest = tail;
+    }
+    let mut s = 0u32;
+    let mut i = 0;
+    while i < idx.len() {
+        s = s.wrapping_add(table[idx[i]] as u32);
+        i += 1;
+    }
+    s
+}
+/// same loop, but it skips every second element: the unchecked ones must not be trusted.
+pub fn bad_shrink(idx: &[usize], table: &[u8; 16]) -> u32 {
+    let mut rest = idx;
+    while let [x, tail @ ..] = rest {
+        if *x >= 16 {
+            return 0;
+        }
+        rest = if let [_, more @ ..] = tail { more } else { tail };
+    }
+    let mut s = 0u32;
+    let mut i = 0;
+    while i < idx.len() {
+        s = s.wrapping_add(table[idx[i]] as u32);
+        i += 1;
+    }
+    s
+}
